@@ -15,10 +15,13 @@ reads starting with the empty buffer; both return the reassembly buffer and the 
 Spec: `Spec/Beast.lean` — `Frame`, `Frame.WF`, `encode` (wire form, 0x1A doubled), `expected`
 (the un-escaped Mode-AC/short/long frames; status messages `"4"` are not handed on).
 
+`lossless` speaks of reads that end on a frame boundary; `progress_any_cut` is the same statement for
+reads that end ANYWHERE (inside a frame, inside an escape pair), with the exact pending bound.
+
 All statements are for ALL frame sequences / ALL byte lists and ALL partitions (induction over the
 frame list and the read list in Proofs/Beast*.lean) — no bound anywhere.
 -/
-import Rs1090.Proofs.BeastSpec
+import Rs1090.Proofs.BeastProgress
 namespace Rs1090.Props.C09
 open Rs1090 Rs1090.Model.Beast Rs1090.Spec.Beast Rs1090.Proofs.Beast
 
@@ -128,6 +131,88 @@ theorem in_flight (fs : List Frame) (hwf : ∀ f ∈ fs, f.WF) (cs : List Bytes)
   rw [h3, h2, List.append_assoc]
   exact List.prefix_append _ _
 
+/-- **progress_any_cut — progress while the stream is arriving, for EVERY cut point.**
+    The reads so far are any partition of any prefix of the stream of a well-formed sequence `fs`
+    (cut anywhere: inside a frame, inside an escape pair).  Then `fs = done ++ pend ++ later` with
+    * what has been received is the wire form of `done ++ pend` (the completely received frames)
+      followed by `n` bytes of `later`, fewer than its first frame has (the partial frame);
+    * the frames handed on are exactly `expected done` — in order, un-escaped, unmodified;
+    * the buffer is exactly the received bytes not yet handed on: `encode pend` and the partial frame;
+    * a completely received frame is pending only inside the look-ahead: `pend = []`, or the WHOLE
+      buffer (pending frames and partial frame together) is shorter than 23 bytes;
+    * and nothing more is pending than the look-ahead forces: with the last frame handed on the
+      buffer was at least 23 bytes long.
+    (`in_flight` alone would be satisfied by a reader that hands on nothing; this is not.) -/
+theorem progress_any_cut (fs : List Frame) (hwf : ∀ f ∈ fs, f.WF) (cs : List Bytes) (rest : Bytes)
+    (h : cs.flatten ++ rest = encode fs) :
+    ∃ (done pend later : List Frame) (n : Nat),
+      fs = done ++ pend ++ later ∧
+      (∀ f l, later = f :: l → n < f.wire.length) ∧
+      cs.flatten = encode (done ++ pend) ++ (encode later).take n ∧
+      runO [] cs [] = .ok (encode pend ++ (encode later).take n, expected done) ∧
+      (pend = [] ∨ (encode pend ++ (encode later).take n).length < LOOKAHEAD) ∧
+      ∀ p g, done = p ++ [g] → LOOKAHEAD ≤ (encode (g :: pend) ++ (encode later).take n).length := by
+  obtain ⟨a, later, n, hfs, hs, hn⟩ := split_stream fs _ _ h
+  have hwa : ∀ f ∈ a, f.WF := fun f hf => hwf f (by rw [hfs]; exact List.mem_append_left _ hf)
+  have hwl : ∀ f ∈ later, f.WF := fun f hf => hwf f (by rw [hfs]; exact List.mem_append_right _ hf)
+  obtain ⟨a₁, a₂, hab, hF, hlen, hmax⟩ := F_encode_partial (partial_of_take hwl hn) a hwa
+  refine ⟨a₁, a₂, later, n, by rw [hfs, hab], hn, by rw [hs, hab], ?_, hlen, hmax⟩
+  rw [run_one_piece, stepO_eq, List.nil_append, hs, hF]
+
+/-- **progress, counted.**  Consequence of `progress_any_cut` in numbers, at any cut point: every
+    completely received frame except at most the last TWO has been handed on (two Mode-AC frames
+    are 22 < 23 bytes), the frames handed on are still a prefix of the expected ones, and the
+    reassembly buffer holds at most 43 bytes (an incomplete long frame with all 21 bytes 0x1A). -/
+theorem progress_all_but_two (fs : List Frame) (hwf : ∀ f ∈ fs, f.WF) (cs : List Bytes) (rest : Bytes)
+    (h : cs.flatten ++ rest = encode fs)
+    (a b c : List Frame) (hfs : fs = a ++ b ++ c) (hb : b.length = 2)
+    (hrecv : (encode (a ++ b)).length ≤ cs.flatten.length) :
+    ∃ buf out, runO [] cs [] = .ok (buf, out) ∧
+      expected a <+: out ∧ out <+: expected fs ∧ buf.length ≤ 43 := by
+  obtain ⟨done, pend, later, n, hd, hn, hs, hrun, hlen, _⟩ := progress_any_cut fs hwf cs rest h
+  have hwp : ∀ f ∈ pend, f.WF := fun f hf => hwf f (by
+    rw [hd]; exact List.mem_append_left _ (List.mem_append_right _ hf))
+  have hwl : ∀ f ∈ later, f.WF := fun f hf => hwf f (by rw [hd]; exact List.mem_append_right _ hf)
+  have hp11 := encode_length_ge pend hwp
+  -- the partial frame is shorter than 44 bytes
+  have hpart : ((encode later).take n).length ≤ 43 := by
+    cases later with
+    | nil => simp [encode]
+    | cons f l =>
+      have := hn f l rfl
+      have := (wire_length (hwl f (List.mem_cons_self ..))).2
+      rw [List.length_take]; omega
+  have hpend : pend.length ≤ 2 := by
+    rcases hlen with rfl | hl
+    · simp
+    · rw [List.length_append] at hl; simp only [LOOKAHEAD] at hl; omega
+  refine ⟨_, _, hrun, ?_, ?_, ?_⟩
+  · -- a is a prefix of done
+    have hlen_ab : (a ++ b).length ≤ (done ++ pend).length := by
+      rw [hfs] at hd
+      rcases List.append_eq_append_iff.mp hd with ⟨z, hz, _⟩ | ⟨z, hz, hl⟩
+      · rw [hz]; simp
+      · cases z with
+        | nil => rw [hz]; simp
+        | cons f z =>
+          exfalso
+          have hnf := hn f (z ++ c) (by rw [hl]; rfl)
+          rw [hs, hz, encode_append, encode_append] at hrecv
+          simp only [encode, List.length_append, List.length_take] at hrecv
+          omega
+    have hpre : a <+: done := by
+      apply List.prefix_of_prefix_length_le (l₃ := fs)
+      · exact ⟨b ++ c, by rw [hfs, List.append_assoc]⟩
+      · exact ⟨pend ++ later, by rw [hd, List.append_assoc]⟩
+      · simp only [List.length_append] at hlen_ab; omega
+    obtain ⟨t, rfl⟩ := hpre
+    rw [expected_append]; exact List.prefix_append _ _
+  · rw [hd, List.append_assoc, expected_append]; exact List.prefix_append _ _
+  · rw [List.length_append]
+    rcases hlen with rfl | hl
+    · simpa [encode] using hpart
+    · rw [List.length_append] at hl; simp only [LOOKAHEAD] at hl; omega
+
 /-! ### Non-vacuity and regression witnesses -/
 
 /-- the hypotheses are satisfiable: a long frame whose body is 21 × 0x1A is well-formed … -/
@@ -145,6 +230,23 @@ example : ∀ f ∈ witness, f.WF := by decide
 theorem regression_witness :
     runO [] [(encode witness).take 23, (encode witness).drop 23] []
       = .ok (encode (witness.drop 2), expected (witness.take 2)) := by
+  decide +kernel
+
+/-- `progress_any_cut` on a concrete cut: the stream of `witness` (25 + 16 + 16 bytes) cut after 46
+    bytes, read as 3 + 43 bytes (the first cut inside an escape pair).  `done` = the long frame,
+    `pend` = the first short frame (completely received, but 16 + 5 = 21 < 23), partial frame = 5 bytes. -/
+example :
+    runO [] [(encode witness).take 3, ((encode witness).take 46).drop 3] []
+      = .ok (encode [witness[1]] ++ (encode [witness[2]]).take 5, expected [witness[0]]) := by
+  decide +kernel
+
+/-- … and the other disjunct (`pend = []`, buffer ≥ 23), with the 43-byte bound attained: a Mode-AC
+    frame, then 43 of the 44 wire bytes of a long frame of 21 × 0x1A (cut inside the last escape
+    pair): the Mode-AC frame is handed on, the 43 bytes stay. -/
+example :
+    stepO [] ((encode [⟨0x31, [1,2,3,4,5,6,7,8,9]⟩, ⟨0x33, List.replicate 21 0x1A⟩]).take (11 + 43))
+      = .ok ((Frame.wire ⟨0x33, List.replicate 21 0x1A⟩).take 43,
+             [Frame.raw ⟨0x31, [1,2,3,4,5,6,7,8,9]⟩]) := by
   decide +kernel
 
 /-- the look-ahead bound is sharp: two Mode-AC frames (22 bytes) stay pending, nothing is handed on -/
